@@ -8,6 +8,8 @@ package c06
 
 import (
 	"bytes"
+	"crypto/sha256"
+	"encoding/binary"
 	"fmt"
 	"math/big"
 	"sort"
@@ -233,7 +235,7 @@ func exec(line string) (res h.Result) {
 			return
 		}
 		pkenc, _ := X.MarshalBinary()
-		res.Impl = fmt.Sprintf("ok %s pk=%s", h.Hex(sig), h.Hex(pkenc))
+		res.Impl = fmt.Sprintf("ok %s pk=%s tbi=%s dpk=%s", h.Hex(sig), h.Hex(pkenc), toBigIntOf(sig), decodePubKeyOf(X))
 		ident := new(big.Int).Mod(sk, bnref.Rn).Sign() == 0
 		// canonical EVM encodings
 		if len(sig) != 64 {
@@ -279,6 +281,14 @@ func exec(line string) (res h.Result) {
 			res.Oracle = "c06-ToBigInt-differs"
 			return
 		}
+		if ident {
+			// the identity key: the library emits ONE byte, not four words; what reaches the contract is decided by
+			// decodePubKey: an error (nothing is sent), or the EVM's encoding of infinity (four zero words)
+			if d := decodePubKeyOf(X); d != "err" && d != "ok 0,0,0,0" {
+				res.Oracle = "c06-identity-key-coordinates: decodePubKey of the identity key answers " + d
+				return
+			}
+		}
 		if !ident {
 			c, err := dkg.VerifDecodePubKey(X)
 			if err != nil {
@@ -302,6 +312,15 @@ func exec(line string) (res h.Result) {
 		wantKey := bnref.Enc2(bnref.Mul2(skr, bnref.G2Gen())) // independent copy of the key's encoding
 		pk128 := bnref.Enc2EVM(bnref.Mul2(skr, bnref.G2Gen()))
 		msg0, sig0 := append([]byte{}, msg...), append([]byte{}, sig...)
+		keymode = strings.TrimSuffix(keymode, "+m")
+		wantDpk := "err"
+		if skr.Sign() != 0 {
+			wantDpk = fmt.Sprintf("ok %s,%s,%s,%s", new(big.Int).SetBytes(pk128[0:32]), new(big.Int).SetBytes(pk128[32:64]), new(big.Int).SetBytes(pk128[64:96]), new(big.Int).SetBytes(pk128[96:128]))
+		}
+		wantObj := suite.G2().Point()
+		if err := wantObj.UnmarshalBinary(wantKey); err != nil {
+			panic("bad case line: reference key encoding rejected")
+		}
 		// the EVM verdict, from independently computed encodings
 		evm, parsed := false, false
 		if r1 := refSig(sig); r1 != nil {
@@ -326,6 +345,40 @@ func exec(line string) (res h.Result) {
 			verdicts := make([]string, n)
 			start := make(chan struct{})
 			var wg sync.WaitGroup
+			// "+m": while the n goroutines verify, others MARSHAL / Equal / decodePubKey the same shared key object
+			// (what the node does with a group key: genGroup reports its coordinates while shares are verified)
+			nm := 0
+			if strings.HasSuffix(w[4], "+m") {
+				nm = 3
+			}
+			side := make([]string, nm)
+			for g := 0; g < nm; g++ {
+				wg.Add(1)
+				go func(g int) {
+					defer wg.Done()
+					defer func() {
+						if e := recover(); e != nil {
+							side[g] = "panic " + h.OneLine(fmt.Sprint(e))
+						}
+					}()
+					<-start
+					switch g {
+					case 0:
+						enc, err := X.MarshalBinary()
+						if err != nil || !bytes.Equal(enc, wantKey) {
+							side[g] = fmt.Sprintf("MarshalBinary gave %s (err %v)", h.Hex(enc), err)
+						}
+					case 1:
+						if d := decodePubKeyOf(X); d != wantDpk {
+							side[g] = "decodePubKey gave " + d + ", expected " + wantDpk
+						}
+					default:
+						if !X.Equal(wantObj) || !wantObj.Equal(X) {
+							side[g] = "Equal with an independent copy of the key answered false"
+						}
+					}
+				}(g)
+			}
 			for g := 0; g < n; g++ {
 				wg.Add(1)
 				go func(g int) {
@@ -345,6 +398,11 @@ func exec(line string) (res h.Result) {
 			}
 			close(start)
 			wg.Wait()
+			for g, sd := range side {
+				if sd != "" && res.Oracle == "" {
+					res.Oracle = fmt.Sprintf("c06-concurrent-marshal-differs: round %d of %d, goroutine %d working on the key object shared with %d verifying goroutines: %s", r, rounds, g, n, sd)
+				}
+			}
 			for _, v := range verdicts {
 				counts[v]++
 				if (v == "accept") != (parsed && evm) && res.Oracle == "" {
@@ -372,7 +430,74 @@ func exec(line string) (res h.Result) {
 				res.Impl += fmt.Sprintf(" %s×%d", k, counts[k])
 			}
 		}
-		res.Class = fmt.Sprintf("conc-%s-n%d", keymode, n)
+		res.Class = fmt.Sprintf("conc-%s-n%d", w[4], n)
+	case "split":
+		// split <bytes>: Signature.ToBigInt on ANY byte string (short ones included: fewer than 32 bytes give (0, 0),
+		// no panic — /repo 6bcc55e); the model is Codec.sigToBigInt
+		b := h.UnHex(w[1])
+		res.Impl = toBigIntOf(b)
+		wx, wy := new(big.Int), new(big.Int)
+		if len(b) >= 32 {
+			wx.SetBytes(b[:32])
+			wy.SetBytes(b[32:])
+		}
+		if want := wx.String() + "," + wy.String(); res.Impl != want {
+			res.Oracle = fmt.Sprintf("c06-ToBigInt-differs: %d bytes give %s, the big-endian words are %s", len(b), res.Impl, want)
+		}
+		res.Class = fmt.Sprintf("split-%s", map[bool]string{true: "short", false: "long"}[len(b) < 64])
+	case "dpk":
+		// dpk <sk> <how>: decodePubKey on a key OBJECT built in one of the ways the library offers (identity keys
+		// included: Mul by 0, Null, P−P, the encodings 0x00, 0x00‖junk, 0x01‖zeros); the model is Codec.decodePubKey
+		// on the library's encoding.  Error for the identity (one byte), the four words < p else; never a panic.
+		sk := new(big.Int).Mod(h.BigDec(w[1]), bnref.Rn)
+		X := keyObject(sk, w[2])
+		res.Impl = decodePubKeyOf(X)
+		want := "err"
+		if sk.Sign() != 0 {
+			e := bnref.Enc2EVM(bnref.Mul2(sk, bnref.G2Gen()))
+			want = fmt.Sprintf("ok %s,%s,%s,%s", new(big.Int).SetBytes(e[0:32]), new(big.Int).SetBytes(e[32:64]), new(big.Int).SetBytes(e[64:96]), new(big.Int).SetBytes(e[96:128]))
+		}
+		if res.Impl != want && !(sk.Sign() == 0 && res.Impl == "ok 0,0,0,0") {
+			res.Oracle = fmt.Sprintf("c06-decodePubKey-differs: key %s·G2 built by %s: decodePubKey answers %s, the coordinates are %s", sk, w[2], res.Impl, want)
+		}
+		res.Class = "dpk-" + w[2]
+	case "kp":
+		// kp <seed> <msg>: bls.NewKeyPair on a seeded stream: the public key IS x·G2 for the scalar it returns
+		// (math/big), both are canonical, a signature under x verifies under X by the library and by the EVM
+		x, X := bls.NewKeyPair(suite, &ctrStream{seed: h.UnHex(w[1])})
+		msg := msgOf(w[2])
+		xb, err := x.MarshalBinary()
+		if err != nil || len(xb) != 32 {
+			res.Impl = "err scalar"
+			res.Oracle = "c06-keypair-scalar-encoding"
+			return
+		}
+		xv := new(big.Int).SetBytes(xb)
+		pkenc, _ := X.MarshalBinary()
+		res.Impl = "keypair-consistent"
+		switch {
+		case xv.Cmp(bnref.Rn) >= 0:
+			res.Oracle = "c06-keypair-scalar-not-reduced: " + xv.String()
+		case !bytes.Equal(pkenc, bnref.Enc2(bnref.Mul2(xv, bnref.G2Gen()))):
+			res.Oracle = fmt.Sprintf("c06-keypair-differs: NewKeyPair returned x = %s and X = %s, x·G2 is %s", xv, h.Hex(pkenc), h.Hex(bnref.Enc2(bnref.Mul2(xv, bnref.G2Gen()))))
+		}
+		if res.Oracle != "" {
+			res.Impl = "keypair-inconsistent"
+			return
+		}
+		sig, err := bls.Sign(suite, x, msg)
+		if err != nil {
+			res.Oracle = "c06-sign-error: " + err.Error()
+			return
+		}
+		if evm, e := evmVerdict(xv, msg, sig); !evm || e != "" {
+			res.Oracle = fmt.Sprintf("c06-evm-rejects-emitted-signature: key pair of NewKeyPair, pairing=%v %s", evm, e)
+		} else if err := bls.Verify(suite, X, msg, sig); err != nil {
+			res.Oracle = "c06-own-signature-rejected: key pair of NewKeyPair: " + err.Error()
+		}
+		if res.Oracle != "" {
+			res.Impl = "keypair-inconsistent"
+		}
 	case "keccak":
 		res.Impl = h.Hex(crypto.Keccak256(msgOf(w[1])))
 	default:
@@ -399,4 +524,86 @@ func refSig(sig []byte) []byte {
 		return nil
 	}
 	return append([]byte{}, sig[:64]...)
+}
+
+// toBigIntOf: "x,y" as Signature.ToBigInt returns them
+func toBigIntOf(sig []byte) string {
+	return guarded(func() string {
+		x, y := (&vss.Signature{Signature: sig}).ToBigInt()
+		if x == nil || y == nil {
+			return "nil"
+		}
+		return x.String() + "," + y.String()
+	})
+}
+
+// decodePubKeyOf: "ok w0,w1,w2,w3" or "err" as dkg.decodePubKey answers for the key object
+func decodePubKeyOf(X kyber.Point) string {
+	return guarded(func() string {
+		c, err := dkg.VerifDecodePubKey(X)
+		if err != nil {
+			return "err"
+		}
+		return fmt.Sprintf("ok %s,%s,%s,%s", c[0], c[1], c[2], c[3])
+	})
+}
+
+// keyObject: sk·G2 as a key object, built as `how` says (the identity modes require sk = 0)
+func keyObject(sk *big.Int, how string) kyber.Point {
+	X := suite.G2().Point().Mul(scalar(big.NewInt(77)), nil) // an object that already held a key
+	var err error
+	switch how {
+	case "mul":
+		X.Mul(scalar(sk), nil)
+	case "fresh":
+		X = suite.G2().Point().Mul(scalar(sk), nil)
+	case "sum":
+		a := big.NewInt(9)
+		b := new(big.Int).Sub(sk, a)
+		X.Add(suite.G2().Point().Mul(scalar(a), nil), suite.G2().Point().Mul(scalar(b.Mod(b, bnref.Rn)), nil))
+	case "unm":
+		err = X.UnmarshalBinary(bnref.Enc2(bnref.Mul2(sk, bnref.G2Gen())))
+	case "null":
+		identMode(sk, nil)
+		X.Null()
+	case "sub":
+		identMode(sk, nil)
+		X.Sub(X, suite.G2().Point().Set(X))
+	case "unz":
+		identMode(sk, nil)
+		err = X.UnmarshalBinary(append([]byte{1}, make([]byte, 128)...))
+	case "unj":
+		identMode(sk, nil)
+		err = X.UnmarshalBinary(append([]byte{0}, bytes.Repeat([]byte{0x5a}, 128)...))
+	case "new": // a point object nothing was ever done with
+		identMode(sk, nil)
+		X = suite.G2().Point()
+	default:
+		panic("bad case line: key construction " + how)
+	}
+	if err != nil {
+		panic("bad case line: key encoding rejected: " + err.Error())
+	}
+	return X
+}
+
+// ctrStream: SHA-256 in counter mode over the seed (a deterministic cipher.Stream for NewKeyPair)
+type ctrStream struct {
+	seed []byte
+	ctr  uint64
+	buf  []byte
+}
+
+func (c *ctrStream) XORKeyStream(dst, src []byte) {
+	for i := range src {
+		if len(c.buf) == 0 {
+			var n [8]byte
+			binary.BigEndian.PutUint64(n[:], c.ctr)
+			c.ctr++
+			d := sha256.Sum256(append(append([]byte{}, c.seed...), n[:]...))
+			c.buf = d[:]
+		}
+		dst[i] = src[i] ^ c.buf[0]
+		c.buf = c.buf[1:]
+	}
 }
